@@ -150,6 +150,12 @@ func judge(c Case, w *vkit.W) {
 				w.Fail(c, "formatter-error", "json.Marshal: "+err.Error())
 			}
 			out("json.Marshal", string(jb), `{"d":"`+ext+`","p":"`+ext+`","l":["`+ext+`"]}`)
+			// a date is also a valid JSON object key (encoding/json uses the text form for keys)
+			kb, err := json.Marshal(map[date.Date]int{orig: 1})
+			if err != nil {
+				w.Fail(c, "formatter-error", "json.Marshal of a map keyed by the date: "+err.Error())
+			}
+			out("json.Marshal(map key)", string(kb), `{"`+ext+`":1}`)
 			xb, err := xml.Marshal(holder{A: orig, D: orig})
 			if err != nil {
 				w.Fail(c, "formatter-error", "xml.Marshal: "+err.Error())
@@ -216,6 +222,13 @@ func judge(c Case, w *vkit.W) {
 				in("json.Unmarshal(slice)", jh.L[0], nil)
 			}
 		}
+		var km map[date.Date]int
+		err = json.Unmarshal([]byte(`{"`+want+`":1}`), &km)
+		var kd date.Date
+		for k := range km {
+			kd = k
+		}
+		in("json.Unmarshal(map key)", kd, err)
 		var xh holder
 		err = xml.Unmarshal([]byte(`<h a="`+want+`"><d>`+want+`</d></h>`), &xh)
 		in("xml.Unmarshal(element)", xh.D, err)
